@@ -327,6 +327,27 @@ func genLdexpArgs(r *gen.RNG) (ref.Bits, int) {
 		e := r.Exp()
 		target := 6145 - (ref.NumDigits(c) - 1) + r.Range(-37, 3)
 		return ref.Encode(r.Bool(), c, e), target - e
+	case 6: // result-driven: exactly jd digits are shifted out below the minimum exponent and the kept coefficient is
+		// an internal threshold (2^64-1, 2^64, 2^63, word boundaries ...) with a chosen discarded part
+		kept := r.ThresholdExact()
+		nd := ref.NumDigits(kept)
+		if nd <= 33 {
+			jd := r.Range(1, 34-nd)
+			tail := new(big.Int).Mul(big.NewInt(int64(r.Pick(5, 5, 4, 9, 0, 6))), ref.Pow10(jd-1))
+			switch r.Intn(3) {
+			case 1:
+				tail.Add(tail, ref.One)
+			case 2:
+				tail.Add(tail, r.BigBelow(ref.Pow10(jd-1)))
+			}
+			c := new(big.Int).Mul(kept, ref.Pow10(jd))
+			c.Add(c, tail)
+			if c.Cmp(ref.Cmax) <= 0 {
+				e := r.Exp()
+				return ref.Encode(r.Bool(), c, e), ref.MinExp - jd - e
+			}
+		}
+		return r.Finite(), r.Range(-7000, 7000)
 	case 4:
 		return r.AnyBits(), r.Pick(0, 1, -1, math.MinInt, math.MaxInt, -1<<31, 1<<31, 32768, -32768, 65536, -65536, r.Range(-13000, 13000))
 	case 5:
